@@ -249,7 +249,11 @@ def native(msg, py_names=True):
         key = _names.py_field(fd.name) if py_names else fd.name
         if is_map(fd):
             vfd = fd.message_type.fields_by_name['value']
-            out[key] = {k: (native(v, py_names) if vfd.type == FD.TYPE_MESSAGE else v) for k, v in val.items()}
+            if vfd.type == FD.TYPE_MESSAGE and vfd.message_type.file.package != msg.DESCRIPTOR.file.package:
+                # map values of a plain-protobuf dependency type: proto-plus wants real instances there
+                out[key] = {k: _default_pool_instance(v) for k, v in val.items()}
+            else:
+                out[key] = {k: (native(v, py_names) if vfd.type == FD.TYPE_MESSAGE else v) for k, v in val.items()}
         elif fd.type == FD.TYPE_MESSAGE:
             sub_py = py_names and not fd.message_type.file.package.startswith('google.')
             if fd.label == FD.LABEL_REPEATED:
@@ -261,6 +265,12 @@ def native(msg, py_names=True):
         else:
             out[key] = val
     return out
+
+
+def _default_pool_instance(dyn):
+    from google.protobuf import descriptor_pool as _dp
+    cls = message_factory.GetMessageClass(_dp.Default().FindMessageTypeByName(dyn.DESCRIPTOR.full_name))
+    return cls.FromString(dyn.SerializeToString())
 
 
 def _wkt_or_native(v, py_names):
